@@ -6,6 +6,26 @@ LEVEL = "proof"
 LIBS = ["SigmaArith.vo", "KeyRingLemmas.vo"]
 PARTS = ["orders", "malformed", "interleave", "big"]
 
+
+def correspond_chunks(res, pid, out, drv, tier, seed, k):
+    """split the records over k model-driver processes; returns the list of MISMATCH lines and merges coverage into res"""
+    recs = [l for l in out.split("\n") if l.startswith("REC ")]
+    chunks = ["\n".join(recs[i::k]) + "\n" for i in range(k) if recs[i::k]]
+    def one(c):
+        r2 = vpl.Result(pid, tier, seed)
+        m, _ = vpl.correspond(r2, pid, c, drv)
+        return r2, m
+    mism = []
+    with ThreadPoolExecutor(max(1, len(chunks))) as ex:
+        for r2, m in ex.map(one, chunks):
+            mism += m
+            for key in ("evaluations", "distinct_nontrivial", "disagreements"):
+                res.cov[key] += r2.cov[key]
+            for kk, v in r2.cov.get("record_kinds", {}).items():
+                d = res.cov.setdefault("record_kinds", {}); d[kk] = d.get(kk, 0) + v
+            res.cov["samples"] += r2.cov["samples"][:1]
+    return mism
+
 def run(res, tier, seed, replay):
     res.cov["rule"] = ("records = real KeyGenerationProtocol_GenerateKey/PublishKey/UpdateKey/RemoveKey/Finalize calls on k<=5 instances "
                        "sharing a tiny Schnorr or safe-prime group (all k! processing orders for k<=4, k=5 in thorough; the malformed-"
@@ -42,8 +62,10 @@ def run(res, tier, seed, replay):
     def corr(item):
         s, p, out = item
         r2 = vpl.Result(res.pid, tier, s)
-        return item, vpl.correspond(r2, "C08", out, drv), r2
-    with ThreadPoolExecutor(min(vpl.NPROC, max(1, len(outs)))) as ex:
+        mism = correspond_chunks(r2, "C08", out, drv, tier, s, 2 if tier == "quick" else 4)
+        props = [l for l in out.split("\n") if l.startswith("PROPFAIL ")]
+        return (item, (mism, props), r2)
+    with ThreadPoolExecutor(max(1, len(outs))) as ex:
         done = list(ex.map(corr, outs))
     for (s, p, out), (mism, props), r2 in done:
         for k in ("evaluations", "distinct_nontrivial", "disagreements"):
